@@ -254,7 +254,7 @@ var props = map[string]*propDef{
 			"time.Local is UTC (tzdata not read); compression disabled for result blocks in this harness",
 		}, baseAssumptions...),
 		Harnesses: []harnessDef{
-			{Name: "ch.VerifC03Script", Quick: map[string]int{"maxpackets": 2, "maxfail": 0}, Thorough: map[string]int{"maxpackets": 3, "maxfail": 1}},
+			{Name: "ch.VerifC03Script", Quick: map[string]int{"maxpackets": 2, "maxfail": 0, "maxchain": 3}, Thorough: map[string]int{"maxpackets": 3, "maxfail": 1, "maxchain": 4}},
 			{Name: "ch.VerifC03Script", OnlyTier: "thorough", Thorough: map[string]int{"maxpackets": 2, "maxfail": 0, "symversion": 1}},
 		},
 	},
